@@ -38,6 +38,10 @@ pub struct TCase {
     pub views: ViewsHow,
     pub lovelace: u64,
     pub fee: u64,
+    /// a value put into the public `script_data_hash` field of the staging transaction beforehand (documented as a cache that
+    /// is recomputed at build time): the built hash must not depend on it
+    #[serde(default)]
+    pub stale_hash: Option<u8>,
 }
 
 fn subset() -> impl Strategy<Value = Views> {
@@ -61,7 +65,8 @@ pub fn tcase() -> impl Strategy<Value = TCase> {
         1_000_000u64..50_000_000,
         150_000u64..2_000_000,
     )
-        .prop_map(|(inputs, spend, mint, datums, script, views, lovelace, fee)| TCase { inputs, spend, mint, datums, script, views, lovelace, fee })
+        .prop_map(|(inputs, spend, mint, datums, script, views, lovelace, fee)| TCase { inputs, spend, mint, datums, script, views, lovelace, fee, stale_hash: None })
+        .prop_flat_map(|c| prop::option::weighted(0.35, any::<u8>()).prop_map(move |stale_hash| TCase { stale_hash, ..c.clone() }))
 }
 
 fn kind(v: u8) -> ScriptKind {
@@ -135,6 +140,11 @@ pub fn check(c: &TCase, obs: &mut Obs) -> Result<(), Fail> {
             return Ok(());
         }
     };
+    let mut staged = staged;
+    if let Some(b) = c.stale_hash {
+        staged.script_data_hash = Some(pallas_txbuilder::Bytes32([b; 32]));
+        obs.class("txbuilder:stale-cached-hash-set");
+    }
     let built = match staged.build_conway_raw() {
         Ok(b) => b,
         Err(_) => {
